@@ -4,6 +4,8 @@
 
 #!/usr/bin/env python3
 
+from antlr4.error.ErrorListener import ErrorListener
+
 from gambatools.regexp import *
 from gambatools.regexpParser import *
 from gambatools.regexpVisitor import *
@@ -52,10 +54,21 @@ class regexpVisitor(regexpVisitor):
         return self.visit(ctx.expression())
 
 
+class RaisingErrorListener(ErrorListener):
+    def syntaxError(self, recognizer, offendingSymbol, line, column, msg, e):
+        raise RuntimeError('syntax error in regular expression at position {}: {}'.format(column, msg))
+
+
 def parse_regexp(text):
     lexer = regexpLexer(InputStream(text))
+    lexer.removeErrorListeners()
+    lexer.addErrorListener(RaisingErrorListener())
     stream = CommonTokenStream(lexer)
     parser = regexpParser(stream)
+    parser.removeErrorListeners()
+    parser.addErrorListener(RaisingErrorListener())
     tree = parser.expression()
+    if stream.LA(1) != Token.EOF:
+        raise RuntimeError('syntax error in regular expression: unexpected input {}'.format(stream.LT(1).text))
     visitor = regexpVisitor()
     return visitor.visit(tree)
